@@ -10,16 +10,6 @@ geometric meaning.  The theorems hold for **all** segment lengths and interval p
 namespace Gfa.C11
 open Spec
 
-/-- An interval written according to the specification (`$` exactly at the segment end). -/
-structure ValidIv (n b e : Nat) : Prop where
-  le : b ≤ e
-  bound : e ≤ n
-  pos : 0 < n
-
-/-- kind of an interval from what it touches -/
-def kindOf (n b e : Nat) : SubT :=
-  if b = 0 then (if e = n then .whole else .pfx) else (if e = n then .sfx else .internal)
-
 @[simp] theorem mk_value (x n : Nat) : (Pos.mk x n).value = x := by
   unfold Pos.mk; split <;> rfl
 @[simp] theorem mk_isFirst (x n : Nat) : (Pos.mk x n).isFirst = (x == 0) := by
